@@ -30,9 +30,14 @@ func ExponentialBackoff(count, maxRetries int, baseDelay, maxDelay time.Duration
 
 		delay := float64(baseDelay) * math.Pow(multiplier, float64(count))
 		jitter := (rand.Float64() - 0.5) * randomization * float64(baseDelay)
-		sleepDuration := time.Duration(delay + jitter)
+		sleep := delay + jitter
+		if math.IsNaN(sleep) {
+			sleep = 0 // 0 * +Inf：baseDelay 为 0 且 math.Pow 溢出时，乘积仍然为 0
+		}
+		sleepDuration := time.Duration(sleep)
 
-		if sleepDuration > maxDelay {
+		// 先以 float64 比较：超出 int64 范围的 float64 转换为 Duration 会得到负值
+		if sleep >= float64(maxDelay) || sleepDuration > maxDelay {
 			sleepDuration = maxDelay
 		}
 
